@@ -199,6 +199,8 @@ def build_array(ad, k=0, toks=None):
     vals = make_values(shape, ad.get("vkind", "f"), k, ad.get("nan_at", ()))
     if "values" in ad:
         vals = np.array(ad["values"], dtype={"f": float, "i": np.int64, "b": bool, "O": object}[ad.get("vkind", "f")]).reshape(shape)
+    if ad.get("vbase") and vals.dtype.kind == "i":
+        vals = vals + int(ad["vbase"])          # large integers (not representable in single precision)
     vd = ad.get("vdtype")
     if vd and vals.dtype.kind in "if" and np.dtype(vd).kind == vals.dtype.kind and np.all(vals.astype(vd).astype(vals.dtype) == vals, where=~np.isnan(vals) if vals.dtype.kind == "f" else True):
         vals = vals.astype(vd)          # narrower dtype of the same kind (every value exactly representable)
